@@ -363,3 +363,52 @@ def c11_matchers(v, text="", ode=None, ref=None, saved=None, **kw):
     if abs(got - d["expected"]) <= max(d["tol"], 1e-9 * abs(d["expected"])):
         return "C11-simplify-in-writer-rewrites-condition"
     return None
+
+
+@matcher("C16")
+def c16_matchers(v, text="", n_sing=0, ode=None, target=None, **kw):
+    d = v.get("detail", {})
+    k = d.get("n_removable", n_sing) or 0
+    if v.get("kind") == "not_the_limit_at_removable_point" and ode is not None and target and exp_constant_folded(ode, target, d.get("expr", "")):
+        g = d.get("got")
+        if g is None or g != g or abs(g) == float("inf"):
+            return "C16-exp-of-float-offset-is-folded-at-load"
+    if k < 2:
+        return None
+    if v.get("kind") == "changed_at_regular_point":
+        r = d.get("ratio")
+        # predictive: the k' conditionals are summed, so a regular point returns k' x the expression (2 <= k' <= k)
+        if r is not None and abs(r - round(r)) < 1e-9 and 2 <= round(r) <= k:
+            return "C16-sum-of-conditionals"
+    if v.get("kind") == "not_the_limit_at_removable_point":
+        g = d.get("got")
+        # predictive: at one singular value the other k'-1 summands still evaluate the original (singular) expression
+        if g is None or g != g or abs(g) == float("inf"):
+            return "C16-sum-of-conditionals"
+    return None
+
+
+def exp_constant_folded(ode, name, text_expr):
+    """The symbolic stage holds Float*exp(...) with a Float that is not a literal of the text:
+    sympy split exp(x + c) into exp(c)*exp(x) at load time."""
+    import re
+
+    import sympy
+
+    lits = set()
+    for m in re.finditer(r"(?<![\w.])(\d+\.?\d*(?:[eE][-+]?\d+)?|\.\d+)", text_expr):
+        try:
+            lits.add(float(m.group(1)))
+        except ValueError:
+            pass
+    try:
+        ex = ode[name].expr
+    except Exception:
+        return False
+    for mul in ex.atoms(sympy.Mul):
+        fl = [a for a in mul.args if isinstance(a, sympy.Float)]
+        if fl and any(isinstance(a, sympy.exp) for a in mul.args):
+            for f in fl:
+                if not any(abs(float(f) - c) <= 1e-12 * abs(c) for c in lits if c) and not any(abs(abs(float(f)) - c) <= 1e-12 * abs(c) for c in lits if c):
+                    return True
+    return False
